@@ -179,13 +179,21 @@ fn apply(
                 common.insert(rel.to_path_buf(), *fp);
             }
         }
+        // A delete was planned from the scan: "unchanged here, gone from the other side".
+        // If this run has itself put a file at that path on the other side meanwhile (a
+        // conflict-copy that happens to carry this name), the path is no longer deleted
+        // there and removing the survivor would discard the copy just preserved.
         Action::DeleteA => {
-            let _ = std::fs::remove_file(&pa);
-            common.remove(rel);
+            if std::fs::symlink_metadata(&pb).is_err() {
+                let _ = std::fs::remove_file(&pa);
+                common.remove(rel);
+            }
         }
         Action::DeleteB => {
-            let _ = std::fs::remove_file(&pb);
-            common.remove(rel);
+            if std::fs::symlink_metadata(&pa).is_err() {
+                let _ = std::fs::remove_file(&pb);
+                common.remove(rel);
+            }
         }
         Action::Conflict(ConflictKind::DeleteVsModify) => {
             // Keep the modification: restore the surviving side onto the deleted one.
